@@ -4,7 +4,7 @@
    value otherwise. Read-back, frame, clipping and transparency in one equation; proved once
    for an abstract grid store and instantiated twice. *)
 From PV Require Import Base.Prelude Base.ListX Spec.PlainMem
-  Proofs.AccessorsBase Proofs.AccessorsSimple Proofs.AccessorsLoops Proofs.C17Proofs.
+  Proofs.AccessorsBase Proofs.AccessorsSimple Proofs.AccessorsLoops Proofs.AccessorsRectPx Proofs.C17Proofs.
 From Coq Require Import ZifyBool.
 Ltac Zify.zify_post_hook ::= Z.to_euclidean_division_equations.
 
@@ -176,4 +176,31 @@ Proof.
               (sr_spec_cell_rd x y ltac:(lia) ltac:(lia)) X Y ltac:(lia) ltac:(lia) rows 0 (m, g) I0 ltac:(lia) HV) as (_ & R).
   rewrite spec_set_rect_fold. unfold block_fold in R. unfold mg_rd in R. rewrite R.
   replace (Y - y - 0) with (Y - y) by lia. reflexivity.
+Qed.
+
+(* get_rect_pixels after set_rect_tiles, pixel by pixel: pixel (X, Y) of the picture of the
+   rectangle (x0, y0, w, h) is pixel (X mod 8, Y mod 8) of the tile now in cell
+   (x0 + X / 8, y0 + Y / 8) - the block's value if the block covers that cell, the old cell
+   otherwise, 0 right of column 127 - drawn from the sprite sheet as it is after the write (map
+   rows 32-63 share the lower half of the sheet). *)
+Lemma rect_pixels_after_set_rect m g x y rows x0 y0 w h X Y :
+  zlen m = 4096 -> zlen g = 8192 -> Forall byte m -> Forall byte g ->
+  in_contract (MapSetRect x y rows) = true -> in_contract (MapGetRectPx x0 y0 w h) = true ->
+  0 <= X < 8 * w -> 0 <= Y < 8 * h ->
+  let st := spec_set_rect (m, g) x y rows in
+  let cx := x0 + X / 8 in let cy := y0 + Y / 8 in
+  nth (Z.to_nat X) (nth (Z.to_nat Y) (spec_get_rect_pixels (fst st) (snd st) x0 y0 w h) []) 0 =
+  tile_px (snd st)
+    (if 127 <? cx then 0
+     else match grid_at no_transparent rows (cx - x) (cy - y) with Some v => v | None => get_cell m g cx cy end)
+    (X mod 8) (Y mod 8).
+Proof.
+  intros Lm Lg Bm Bg C1 C2 HX HY. cbv zeta. pose proof C2 as C2'. unfold in_contract, inr in C2'.
+  destruct (rect_pixels_at (fst (spec_set_rect (m, g) x y rows)) (snd (spec_set_rect (m, g) x y rows))
+              x0 y0 w h X Y ltac:(lia) ltac:(lia) HX HY) as (_ & _ & E).
+  cbv zeta in E. rewrite E. unfold rect_tile.
+  assert ((63 <? y0 + Y / 8) = false) as -> by lia. cbn [orb].
+  destruct (127 <? x0 + X / 8) eqn:E1; [reflexivity|].
+  pose proof (set_rect_cells m g x y rows (x0 + X / 8) (y0 + Y / 8) Lm Lg Bm Bg C1 ltac:(lia) ltac:(lia)) as R.
+  cbv zeta in R. rewrite R. reflexivity.
 Qed.
